@@ -7,6 +7,7 @@ from .. import paths
 from ..core import FUNC, call_attr, calls_in, const, dotted, is_const, kwarg, norm, slice_parts, text, walk_local
 
 EXPLANATION = [
+    'C17.smp-sessions: the SMP session rules of C13.session-lifecycle (nothing is processed after the end of a session; a new Pairing Request replaces a finished session, the old one being ended before the new one is registered; keys are derived only after the key exchange): whatever SMP commands a peer sends, a later well-formed pairing on the same connection works.',
     'C17.dlc-sink: DLC.on_uih_frame calls its consumer inside try/except Exception, so hostile data that makes the consumer raise cannot desynchronise the RFCOMM credit ledgers.',
     'C17.ack-bounded: an acknowledgement received on an ERTM channel is accepted only if it covers no more frames than are actually outstanding (same rule as C08.window), so a forged ReqSeq cannot move the acknowledged sequence number past what was sent and wedge the transmitter.',
     'C17.depth-balance: the SDP parser\'s nesting counter is restored on every normal exit of the recursive list parser (path counting).',
@@ -830,7 +831,13 @@ def dlc_sink(ctx):
             'a consumer that raises on hostile data skips the credit accounting of the data link: after a few such frames the link is wedged', p.loc(uih))
 
 
+def smp_sessions(ctx):
+    from . import c13
+    c13.session_lifecycle(ctx, rule='C17.smp-sessions')
+
+
 RULES = [
+    ('C17.smp-sessions', smp_sessions),
     ('C17.dlc-sink', dlc_sink),
     ('C17.ack-bounded', ack_bounded),
     ('C17.depth-balance', depth_balance),
